@@ -176,9 +176,9 @@ def random_cfg(rng):
 def run(ctx):
     logging.getLogger("bluesky").setLevel(logging.CRITICAL + 10)
     # 1. exhaustive model checking of the design (domains: Init in DispatcherErr.tla).  quick: registry as found (finding
-    #    exempted); thorough: as found on the full domain, repaired on the quick domain.  The replay domain of step 2 is
-    #    checked for both registries.
-    for cfgname in (["DispatcherErr_quick.cfg"] if ctx.quick else ["DispatcherErr_thorough.cfg", "DispatcherErr_repaired.cfg"]):
+    #    exempted) on the quick / thorough domain.  The replay domain of step 2 is checked for both registries (as found and
+    #    repaired; `DispatcherErr_repaired.cfg` = the quick domain for the repaired registry, for manual use).
+    for cfgname in (["DispatcherErr_quick.cfg"] if ctx.quick else ["DispatcherErr_thorough.cfg"]):
         res = run_tlc("DispatcherErr", cfgname, spec_dir=SD, tag="C19", timeout=3000)
         ctx.add_tlc(res, f"DispatcherErr exhaustive {cfgname}")
         if not res.ok:
